@@ -7,6 +7,14 @@
 //!  * `pair` — two real `Mux` instances back to back, application workload of tagged byte streams.
 //! Every op is followed by run-to-quiescence on a current-thread runtime (the runtime's `on_thread_park`
 //! callback fires exactly when no task is runnable), so the observation of an op is schedule-independent.
+//!
+//! Back-pressure on the write path: `win` (raw: the peer announces how many more bytes it takes) and `cap` (pair: the
+//! pipe between the two muxes holds a bounded number of unread bytes) make the transport turn the writer task away, so
+//! that the slot of the channel `write_send` stays occupied and `write_all` / `flush` block in its reservation.
+//! `cwrite` / `cflush` run `write_all` / `flush` under a context of their own; a call that is still suspended once the
+//! runtime is quiescent is blocked for good, and the harness cancels its context ("canceled"). The sub-stream is then
+//! used on. Monitors: at CLOSE on the wire, after a successful flush, and at end-of-stream on the peer's reader, the
+//! payload has to be the concatenation over the write_all calls of all data (Ok) | some prefix (cancelled) (`explain`).
 use std::{
     collections::{BTreeMap, BTreeSet, VecDeque},
     pin::Pin,
@@ -68,8 +76,9 @@ impl std::future::Future for Quiesce {
 }
 
 // ------------------------------------------------------------------------------------------------
-// in-memory transport. Written bytes become visible to the reader only on flush (like the noise stream), or when the
-// writer is blocked by back-pressure (the noise stream sends a full frame without being asked, too).
+// in-memory transport. Without back-pressure, written bytes become visible to the reader only on flush (like the noise
+// stream). With back-pressure configured (`limit` / `cap`) it is a bounded pipe: every complete frame is visible at once,
+// and so is everything written before when the writer is turned away.
 // Back-pressure acts between two mux frames (the transport follows the frame structure of what is written to it with a
 // parser of its own): the writer may start a frame only while `wtotal < limit` (raw sessions: the peer played by the
 // harness announces how many bytes it is going to take) and while fewer than `cap` accepted bytes are unread (pair
@@ -221,6 +230,10 @@ impl io::AsyncWrite for Endpoint {
             g.pending.push(b);
             g.wtotal += 1;
             n += 1;
+        }
+        // a bounded pipe does not hold bytes back until a flush: every complete frame is visible at once
+        if (g.limit.is_some() || g.cap.is_some()) && g.fp.at_frame_start() && n > 0 {
+            g.make_visible();
         }
         if n == 0 && !buf.is_empty() {
             g.make_visible();
